@@ -19,8 +19,11 @@ GROUP_S = ["a", "b", "c"]
 
 def gen_table(rd, name: str, n_rows: Optional[int] = None, shape: Optional[int] = None) -> Dict[str, Any]:
     n = n_rows if n_rows is not None else rd.choice([0, 1, 2, 3, 4, 5, 6, 8, 10, 12])
+    if n_rows is None and rd.random() < 0.05:
+        n = rd.choice([40, 100])  # beyond any "small table" fast path or sample size
+    wide_ids = n > 38
     shape = shape if shape is not None else rd.randrange(4)
-    ids = rd.sample(range(1, 40), n)
+    ids = rd.sample(range(1, 400 if wide_ids else 40), n)
     cols = [{"name": "id", "kind": "key", "values": ids}]
     cols.append({"name": "g", "kind": "group", "values": [rd.choice(GROUP_S[: rd.choice([1, 2, 3])]) for _ in range(n)]})
     if shape in (1, 3):
